@@ -1,5 +1,5 @@
 SPECIFICATION FairSpec
-CONSTANTS Cap = 1  Payload = 3  Variant = "run_process"  Drain = TRUE  CloseAll = TRUE  Timeout = FALSE  Escalate = TRUE  ProgName = "cat"
+CONSTANTS Cap = 1  Payload = 3  Variant = "run_process"  Drain = TRUE  CloseAll = TRUE  Timeout = FALSE  Escalate = TRUE  DtorSig = "KILL"  ProgName = "cat"
 CONSTANT Prog <- MCProg
 INVARIANTS OutputComplete StatusExact Reaped AllFdsClosed StdinDelivered NoThrowUnlessEpipe
 PROPERTY Termination
